@@ -2,7 +2,7 @@ use std::{
     fs,
     io::{self, Read, Write},
     os::unix::fs::PermissionsExt,
-    path::{Path, PathBuf},
+    path::{Component, Path, PathBuf},
     str::FromStr,
 };
 
@@ -23,6 +23,25 @@ use std::fmt::Debug;
 use super::Lead;
 use super::headers::*;
 use super::payload;
+
+/// The place below `dest` to which an archived `path` is extracted. Archived paths are relative to
+/// the root of the package; a path with a `..` component could lead out of `dest` and is refused.
+fn extraction_path(dest: &Path, path: &Path) -> Result<PathBuf, Error> {
+    let mut extracted = dest.to_path_buf();
+    for component in path.components() {
+        match component {
+            Component::Normal(name) => extracted.push(name),
+            Component::RootDir | Component::CurDir => {}
+            Component::ParentDir | Component::Prefix(_) => {
+                return Err(Error::InvalidDestinationPath {
+                    path: path.display().to_string(),
+                    desc: "path leads out of the directory the package is extracted to",
+                });
+            }
+        }
+    }
+    Ok(extracted)
+}
 
 /// A complete rpm file.
 ///
@@ -120,9 +139,7 @@ impl Package {
 
         // pull every base directory name in the package and create the directory in advance
         for dir in dirs {
-            let dir_path = dest
-                .as_ref()
-                .join(Path::new(dir).strip_prefix("/").unwrap_or(dest.as_ref()));
+            let dir_path = extraction_path(dest.as_ref(), Path::new(dir))?;
             fs::create_dir_all(&dir_path)?;
         }
 
@@ -130,12 +147,7 @@ impl Package {
         // instead of reading each file entirely into memory (while the archive is also entirely in memory) before writing them
         for file in self.files()? {
             let file = file?;
-            let file_path = dest.as_ref().join(
-                file.metadata
-                    .path
-                    .strip_prefix("/")
-                    .unwrap_or(dest.as_ref()),
-            );
+            let file_path = extraction_path(dest.as_ref(), &file.metadata.path)?;
 
             let perms = fs::Permissions::from_mode(file.metadata.mode.permissions().into());
             match file.metadata.mode {
